@@ -83,6 +83,20 @@ def run(pid, repo='/repo'):
                 res['drift'].append('%s: %s (%s) %s' % (mod, kind, ', '.join(sorted(names)) or 'see build output',
                                                        first.group(0)[:200] if first else ''))
                 break
+    # 2b. hygiene of the equation files themselves, and how many equations were re-checked
+    n_eq = 0
+    for g in groups:
+        path = os.path.join(LEAN, 'QeepTie', g + '.lean')
+        try:
+            txt = open(path).read()
+        except OSError:
+            continue
+        code = re.sub(r'/-.*?-/', '', txt, flags=re.S)
+        code = re.sub(r'--.*', '', code)
+        n_eq += len(re.findall(r'^theorem\s', code, flags=re.M))
+        if re.search(r'\b(sorry|admit|native_decide|bv_decide|implemented_by)\b|^\s*axiom\s|unsafe\s|maxHeartbeats\s+0', code, flags=re.M):
+            res['drift'].append('forbidden construct in QeepTie/%s.lean' % g)
+    res['equations_checked'] = n_eq
     # 3. translatability and the tracking heads / edge targets
     if 'Rules' in groups or groups:
         exp_un = set(exp.get('untranslated', []))
